@@ -12,6 +12,7 @@ def main():
     st = [r.stats("trace")[0] for r in results]
     files = games.gen_game(chk, "mixed", behaviours=64 if q else 4000, steps=60 if q else 120,
                            max_depth=12 if q else 30, jvms=8 if q else 16)
+    files += games.gen_game_all(chk, depth=2 if q else 3, workers=8 if q else 16)
     for m, p in games.replay_games(chk, files):
         w = "%s|%s|%s" % (m["what"], m.get("root"), " ".join(m.get("ops", [])))
         chk.violation(w, "replayed-behaviour", m, replay={"kind": "gen-game", "file": p, "game": m.get("game")})
@@ -21,8 +22,9 @@ def main():
     chk.cov.update({
         "evaluations": n_events + chk.cov["replayed_behaviours"]["steps"],
         "distinct_nontrivial": sum(s["specials"] for s in st) + chk.cov["replayed_behaviours"]["special_moves"],
-        "rule": "every operation (make/null/undo/undonull) of random walks (engine chooses) and of TLC-simulated ChessGame "
-                "behaviours (specification chooses) is compared field by field with the specification's successor / saved "
+        "rule": "every operation (make/null/undo/undonull) of random walks (engine chooses), of TLC-simulated ChessGame "
+                "behaviours (specification chooses) and of EVERY path of moves/null moves of the bounded model (nesting depth 2 quick / 3 "
+                "thorough from 14 roots, each followed by the take-backs to the root) is compared field by field with the specification's successor / saved "
                 "state, three board views included; non-trivial = castling, en passant, promotion or capture-promotion moves played",
         "walk": {k: sum(s[k] for s in st) for k in ("makes", "nulls", "undos", "loads", "maxdepth")},
     })
